@@ -3,6 +3,7 @@
 #include "../engine/grid.hpp"
 #include <cmath>
 #include <cstring>
+#include <sys/mman.h>
 
 extern "C" {
 #include "a/linalg.h"
@@ -169,6 +170,46 @@ static void structure(unsigned m, unsigned n, int pattern = 0)
     }
 }
 
+// ---------------------------------------------------------------- orders whose element index leaves 32 bits
+// "All dimensions" includes orders beyond 65536, where row * order + column no longer fits the 32-bit type the dimensions are passed in.
+// Only the two diagonal extractions touch O(n) elements of such a matrix, so they can be run: the matrix is an untouched (all-zero,
+// never resident) anonymous mapping in which only the diagonal is written (one page per entry).  If the address space cannot be
+// reserved the part is skipped and reported as such.
+static void huge_orders()
+{
+#if defined(__SANITIZE_ADDRESS__)
+    return;
+#else
+    uint64_t n_done = 0;
+    struct Shape { uint64_t m, n; };
+    for (Shape sh : {Shape{65537, 65537}, Shape{70001, 70001}, Shape{3, 0x80000005ull}, Shape{65540, 65537}})
+    {
+        uint64_t M = sh.m < sh.n ? sh.m : sh.n, bytes = sh.m * sh.n * sizeof(a_real);
+        void *map = mmap(nullptr, (size_t)bytes, PROT_READ | PROT_WRITE, MAP_PRIVATE | MAP_ANONYMOUS | MAP_NORESERVE, -1, 0);
+        if (map == MAP_FAILED) { vx::info_str("huge-order", "the address space for a " + std::to_string(sh.m) + "x" + std::to_string(sh.n) + " matrix could not be reserved: shape skipped"); continue; }
+        a_real *A = (a_real *)map;
+        for (uint64_t i = 0; i < M; ++i) { A[i * sh.n + i] = (a_real)(double)(i + 1); }
+        std::vector<a_real> d((size_t)M + 2, (a_real)-7);
+        std::string in = "{\"m\":" + std::to_string(sh.m) + ",\"n\":" + std::to_string(sh.n) + "}";
+        for (int fn = 0; fn < 2; ++fn)
+        {
+            if (fn == 0 && sh.m != sh.n) { continue; }
+            std::fill(d.begin(), d.end(), (a_real)-7);
+            if (fn == 0) { a_real_diag1((a_uint)sh.n, A, d.data() + 1); } else { a_real_diag2((a_uint)sh.m, (a_uint)sh.n, A, d.data() + 1); }
+            ++n_done;
+            uint64_t bad = M;
+            for (uint64_t i = 0; i < M; ++i) { if (d[(size_t)i + 1] != (a_real)(double)(i + 1)) { bad = i; break; } }
+            if (bad < M) { R.viol(std::string(fn ? "diag2" : "diag1") + "|huge-order", std::string("a_real_") + (fn ? "diag2" : "diag1") + " of a " + std::to_string(sh.m) + "x" + std::to_string(sh.n) + " matrix returns " + std::to_string((double)d[(size_t)bad + 1]) + " for diagonal entry " + std::to_string(bad) + ", which holds " + std::to_string(bad + 1) + " (element index " + std::to_string(bad * sh.n + bad) + " does not fit 32 bits)", in); }
+            else if (d[0] != (a_real)-7 || d[(size_t)M + 1] != (a_real)-7) { R.viol(std::string(fn ? "diag2" : "diag1") + "|huge-order", "a write outside the result", in); }
+        }
+        munmap(map, (size_t)bytes);
+    }
+    n_eval += n_done;
+    n_nt += n_done;
+    vx::stat("huge_order_extractions", (long long)n_done);
+#endif
+}
+
 int main(int argc, char **argv)
 {
     vx::Args args(argc, argv);
@@ -208,6 +249,12 @@ int main(int argc, char **argv)
         uint64_t e0 = n_eval, t0 = n_nt;
         for (unsigned m = 1; m <= S; ++m) { for (unsigned n = 1; n <= S; ++n) { if (R.shard.mine(item++)) { structure(m, n); structure(m, n, 1); structure(m, n, 2); } } }
         R.part(std::string("T1/T2/eye/tri/diag/triL/triL1/triU/triU1 and their rectangular forms on every (m, n) in 1..") + std::to_string(S) + "^2 (wide, square, tall), T2 and T1 applied twice", n_eval - e0, n_nt - t0);
+        if (R.shard.idx == 0)
+        {
+            uint64_t e1 = n_eval, t1 = n_nt;
+            huge_orders();
+            R.part("diagonal extraction (diag1, diag2) from 65537x65537, 70001x70001, 65540x65537 and 3x(2^31+5) matrices held in untouched address space: element indices beyond 32 bits", n_eval - e1, n_nt - t1);
+        }
         if (!g_hyg.empty()) { R.viol(g_hyg + "|call|argument-evaluation", "a_real_" + g_hyg + " as spelled through a/linalg.h does not evaluate each argument expression exactly once (a macro repeats or drops an argument)", "{\"fn\":\"a_real_" + g_hyg + "\"}"); }
         R.sample("{\"fn\":\"a_real_mulmT\",\"row\":2,\"col\":3,\"inner\":1,\"X\":\"index-coded 2x1\",\"Y\":\"primes 3x1\",\"check\":\"Z == X*Y^T exactly, 24 guard cells on both sides untouched\"}");
         R.finish(true, "every listed shape enumerated");
